@@ -10,9 +10,9 @@ K_CONTEXT = [
     {'crate': 'p3-circuit', 'harness': 'c19_set_witness_contract', 'profile': 'release'},
 ]
 PROPS = {
-    'C02': {'units': ['opt'], 'kani': K_ANALYSIS + [{'crate': 'p3-circuit', 'harness': 'c02_allocator_monotone'}], 'exclude': r'H_dup_out_unmentioned'},
+    'C02': {'units': ['opt', 'run19'], 'kani': K_ANALYSIS + [{'crate': 'p3-circuit', 'harness': 'c02_allocator_monotone'}], 'exclude': r'H_dup_out_unmentioned'},
     'C03': {'units': ['opt'], 'kani': K_ANALYSIS},
-    'C19': {'units': [], 'kani': K_CONTEXT},
+    'C19': {'units': ['run19'], 'kani': K_CONTEXT},
     'C20': {'units': ['gad'], 'kani': []},
     'C05': {'units': ['chal'], 'kani': []},
 }
@@ -42,12 +42,15 @@ META = {
                 'contract yet. Trusted base as C02; non-primitive rows denote an uninterpreted relation of the values on their slots.',
     },
     'C19': {
-        'technique': 'Kani loop-free harnesses inside the real crate, both build profiles (complete over u32 indices) ',
+        'technique': 'Verus contracts on extracted real runner functions + Kani loop-free harnesses inside the real crate under both build profiles',
         'text': 'Complete (loop-free, full-domain) proofs with CBMC that ExecutionContext::get_witness is Ok exactly for an in-range set slot and returns its value, '
                 'and that set_witness errs out of range, never overwrites a different value, and changes at most the addressed slot — checked on the code selected by '
                 'debug assertions ON and OFF, so the optimized profile cannot diverge (it did: F2, fixed).',
-        'note': 'Kernel: ExecutionContext::{get_witness,set_witness}. CircuitRunner::{set_public_inputs,set_private_inputs,set_private_data,run} not under contract yet. '
-                'Slice of 3 slots with symbolic contents and symbolic u32 index; BabyBear as the field instance. Trusted: Kani/CBMC, rustc cfg selection via -C debug-assertions.',
+        'note': 'Functions under contract: ExecutionContext::{get_witness,set_witness} (Kani, both profiles) and CircuitRunner::{set_witness,witness_value,get_witness,'
+                'set_public_inputs,set_private_inputs,execute_alu_op,execute_all} (Verus, all circuits / all inputs: wrong length is an error and changes nothing, a set slot never '
+                'changes value, Ok of execute_all means every Const/Public/ALU op left its relation in the table, a withheld public input is an error). '
+                'Not under contract: CircuitRunner::{new,set_private_data,run} and the executors (assumed monotone). Kani: slice of 3 symbolic slots, symbolic u32 index, BabyBear. '
+                'Trusted: Verus/Z3, Kani/CBMC, rustc cfg selection via -C debug-assertions, extractor rewrites.',
     },
 }
 
